@@ -42,7 +42,7 @@ SHARD_TIMEOUT = {'quick': 900, 'thorough': 3400}
 MIN_HITS = {
     'quick': {**{f'rounds:{s}': 16 for s in SYSTEMS}, **{f'cont:{s}': 12 for s in SYSTEMS},
               **{f'hidden:{s}': 6 for s in SYSTEMS}, 'mon:determinism': 400, 'mon:purity': 600, 'mon:serial': 700,
-              'mon:hidden': 100, 'mon:aggkey': 50, 'repeat-participation': 120, 'xproc': 6, 'xproc:agg_rotated': 1, 'history-without-jit': 4, 'nojit:apfl': 1, 'big-leaf-arithmetic': 1, 'hit:apfl-round-raised': 3, 'hit:apfl-big-table': 3},
+              'mon:hidden': 100, 'mon:aggkey': 50, 'repeat-participation': 120, 'xproc': 6, 'xproc:agg_rotated': 1, 'history-without-jit': 4, 'nojit:apfl': 1, 'big-leaf-arithmetic': 1, 'hit:apfl-round-raised': 3, 'hit:apfl-big-table': 3, 'aggregator-object-used-before': 8},
     'thorough': {**{f'rounds:{s}': 250 for s in SYSTEMS}, **{f'cont:{s}': 300 for s in SYSTEMS},
                  **{f'hidden:{s}': 150 for s in SYSTEMS}, 'mon:determinism': 6000, 'mon:purity': 9000, 'mon:serial': 10000,
                  'mon:hidden': 1800, 'mon:aggkey': 800, 'repeat-participation': 2000, 'xproc': 30, 'xproc:agg_rotated': 3, 'history-without-jit': 8, 'nojit:apfl': 2, 'big-leaf-arithmetic': 3},
@@ -401,6 +401,18 @@ def run_history(ctx, jax, fedjax, case, tmpdir):
   if not r.ok:
     return done(False)
   built, apply = r.value
+  if is_agg and sname != 'agg_mean' and case['init_seed'] % 2:
+    # the aggregator OBJECT has been used before, on another model and once on a round without clients (an aggregator is a pair
+    # of functions of (clients, state): nothing about earlier calls may stick to the object) -- the history below is compared
+    # with fresh objects that never saw those calls
+    import jax.numpy as jnp
+    other = {'w': jnp.asarray(np.linspace(-1.0, 1.0, case['dim'] + 37).astype(np.float32)), 'extra': jnp.ones((3, 2), jnp.float32)}
+    try:
+      s_w = built.init()
+      _, s_w = built.apply([(b'warm0', other, 2.0), (b'warm1', jax.tree_util.tree_map(lambda a: a * 0.5, other), 1.0)], s_w)
+      ctx.count('aggregator-object-used-before')
+    except Exception:  # pylint: disable=broad-except
+      ctx.count('aggregator-warm-up-raised')
   r = guarded(f'{sname}.init', system.init, built, init)
   if not r.ok:
     return done(False)
